@@ -112,3 +112,72 @@ class RemoveTrailingSlash(Contract):
         n = L(path)
         ends = And(n >= 1, nth(path, n - 1) == 47) if V.is_sym(path) else path.endswith("/")
         return [("one-slash-removed", Implies(ends, eq(result, slice_(path, 0, n - 1)))), ("otherwise-unchanged", Implies(Not(ends), eq(result, path)))]
+
+
+@contract
+class SanitizeArcname(Contract):
+    """write()/writeall() store absolute source paths as relative names: leading separators and one drive prefix are
+    removed; the result never starts with '/' nor with a drive prefix; AbsolutePathError only when a drive-like
+    prefix remains after stripping"""
+
+    target = "py7zr.py7zr:SevenZipFile._sanitize_archive_arcname"
+    props = ("C16",)
+    assumptions = ("str.lstrip(chars): the result is a suffix of the string that does not start with one of chars (assumed contract); re.match('^[a-zA-Z]:') as documented; platform POSIX (os.sep == '/')",)
+
+    def setup(self, c):
+        self_ = c.obj("SevenZipFile", "py7zr.py7zr", mode="w")
+        return {"self_": self_, "arcname": c.str("arcname")}
+
+    @staticmethod
+    def _drive(s):
+        if not V.is_sym(s):
+            import re
+
+            return re.match("^[a-zA-Z]:", s) is not None
+        from pyvc.builtins_model import _is_alpha
+
+        return And(L(s) >= 2, _is_alpha(nth(s, 0)), nth(s, 1) == 58)
+
+    @staticmethod
+    def _lead(s):
+        if not V.is_sym(s):
+            return s.startswith("/")
+        return And(L(s) >= 1, nth(s, 0) == 47)
+
+    def raises(self):
+        return [RaiseSpec("AbsolutePathError")]
+
+    def fresh_result(self, c, self_, arcname):
+        return c.str("relative_name")
+
+    def ensures(self, c, old, result, self_, arcname):
+        if getattr(c, "concrete", False):
+            tail_ok = arcname.endswith(result)
+        else:
+            import z3 as _z
+
+            tail_ok = SBool(_z.SuffixOf(V.to_seq(result).t, V.to_seq(arcname).t))
+        return [
+            ("no-leading-separator", Not(self._lead(result))),
+            ("no-drive-prefix", Not(self._drive(result))),
+            ("rest-of-the-name-kept", tail_ok),
+        ]
+
+    def xensures(self, c, old, exc, self_, arcname):
+        # raising is only acceptable for names that are still drive-like after stripping: a name consisting of
+        # separators, an optional single drive prefix, separators and an ordinary relative rest must be stored
+        if getattr(c, "concrete", False):
+            import re
+
+            s = arcname.lstrip("/")
+            if re.match("^[a-zA-Z]:", s):
+                s = s[2:].lstrip("/")
+            return [("raises-only-for-nested-drive-prefix", re.match("^[a-zA-Z]:", s) is not None)]
+        p = c.eng.top_env.get("path")
+        return [("raises-only-for-nested-drive-prefix", self._drive(p) if p is not None else False)]
+
+    def hooks(self):
+        def on_assign(c, ev):
+            pass
+
+        return {}
